@@ -179,3 +179,29 @@ package badger
 //@        itvisited(it, nodeKey(elems(r)[p].ID)) && kvlive(nodeKey(elems(r)[p].ID)) && elems(r)[p] == kvget("store.Node", nodeKey(elems(r)[p].ID)) && store.eligibleHost(elems(r)[p], kind, seenSince)
 //@ loop 0 invariant [complete] forall k store.NodeID :: itvisited(it, nodeKey(k)) && kvlive(nodeKey(k)) && store.eligibleHost(kvget("store.Node", nodeKey(k)), kind, seenSince) ==> store.hasNode(r, k)
 //@ loop 0 invariant [distinct] store.distinctIDs(r)
+
+// ---- opening and migrating (C13) ----------------------------------------------------------------
+// The format version lives under the key "vip:version". kvunchanged(k): everything stored under k is as at entry;
+// kvallsame(): the whole database is as at entry.
+//@ pure dbVersionIs(v int) bool = ite(kvlive("vip:version"), kvget("int", "vip:version"), 0) == v
+
+// Migrate: one transaction. A database that is already at the latest version is left exactly as it is, and so is one
+// whose migration fails at any point (the steps are function values: whatever they wrote is rolled back with the rest).
+//@ func (*Migration).Migrate
+//@ property C13
+//@ ensures [reopening-a-current-database-changes-nothing] old(dbVersionIs(m.LatestVersion)) ==> kvallsame()
+//@ ensures [a-failed-migration-changes-nothing] err != nil ==> kvallsame()
+//@ ensures [one-transaction] txncount() <= 1
+
+// step 0 -> 1: only stamps the version
+//@ func init$1
+//@ property C13
+//@ ensures [only-the-version-key] forall k string :: k != "vip:version" ==> kvunchanged(k)
+//@ ensures [stamped] err == nil ==> old(dbVersionIs(0)) && dbVersionIs(1)
+
+// step 1 -> 2: drops the nonce key space (entries without TTL) and stamps the version; nothing else is touched
+//@ func init$2
+//@ property C13
+//@ ensures [only-nonces-and-the-version-key] forall k string :: k != "vip:version" && !(exists x string :: k == nonceKey(x)) ==> kvunchanged(k)
+//@ ensures [stamped] err == nil ==> old(dbVersionIs(1)) && dbVersionIs(2)
+//@ loop 0 invariant [only-nonces] forall k string :: k != "vip:version" && !(exists x string :: k == nonceKey(x)) ==> kvunchanged(k)
